@@ -510,6 +510,19 @@ impl Model {
                 let mut r = self.call(&addr, "instantiate", sender, funds, node, None, e, depth)?;
                 r.data = Some(wrap_instantiate(&addr, r.data.as_deref().unwrap_or(&[])));
                 self.probe("instantiate_ok");
+                if self.addr_validator.is_some() {
+                    // adversarial address generator: which kinds of neighbours exist
+                    let mut succ = addr.as_bytes().to_vec();
+                    if let Some(l) = succ.last_mut() {
+                        *l = l.wrapping_sub(1);
+                    }
+                    if self.s.contracts.contains_key(&String::from_utf8_lossy(&succ).to_string()) {
+                        self.probe("contract_at_successor_address");
+                    }
+                    if addr.to_lowercase() != addr && self.s.contracts.contains_key(&addr.to_lowercase()) {
+                        self.probe("contract_at_case_twin_address");
+                    }
+                }
                 Ok(r)
             }
             CMsg::Migrate { contract, code_id, node } => {
@@ -730,22 +743,12 @@ impl Model {
                     None => "none".into(),
                 }
             }
-            QueryOp::Smart { contract, keys } => {
+            QueryOp::Smart { contract, keys, scan, chain } => {
                 let a = names.target(contract, self_addr);
-                if self.module_call("wasm.query", "", format!("smart:{}", a)).is_err() {
-                    return "ERR".into();
-                }
-                if !self.valid_addr(&a) {
-                    return "ERR".into();
-                }
-                match self.s.contracts.get(&a) {
-                    Some(c) if self.codes.contains_key(&c.code_id) => {
-                        let empty = BTreeMap::new();
-                        let kv = self.s.kv.get(&a).unwrap_or(&empty);
-                        let vals: Vec<Option<Vec<u8>>> = keys.iter().map(|k| kv.get(k).cloned()).collect();
-                        smart_answer(&a, self.height, &vals)
-                    }
-                    _ => "ERR".into(),
+                let chain: Vec<String> = chain.iter().map(|t| names.target(t, self_addr)).collect();
+                match self.smart(&a, keys, *scan, &chain) {
+                    Ok(s) => s,
+                    Err(()) => "ERR".into(),
                 }
             }
             QueryOp::ContractInfo { contract } => {
@@ -843,6 +846,40 @@ impl Model {
         self.answer(q, "", CodeKind::Direct)
     }
 
+    /// Smart query answer of the scripted contracts (values, optional scan, optional nested forwarding).
+    fn smart(&mut self, a: &str, keys: &[Vec<u8>], scan: bool, chain: &[String]) -> Result<String, ()> {
+        self.module_call("wasm.query", "", format!("smart:{}", a))?;
+        if !self.valid_addr(a) {
+            return Err(());
+        }
+        let c = self.s.contracts.get(a).ok_or(())?;
+        if !self.codes.contains_key(&c.code_id) {
+            return Err(());
+        }
+        let empty = BTreeMap::new();
+        let kv = self.s.kv.get(a).unwrap_or(&empty);
+        let vals: Vec<Option<Vec<u8>>> = keys.iter().map(|k| kv.get(k).cloned()).collect();
+        let mut s = smart_answer(a, self.height, &vals);
+        if scan {
+            s.push_str("|scan:");
+            s.push_str(&kv.iter().map(|(k, v)| format!("{}={}", hex(k), hex(v))).collect::<Vec<_>>().join(","));
+        }
+        if let Some(next) = chain.first() {
+            self.probe("nested_smart_query");
+            if chain.len() >= 3 {
+                self.probe("query_nesting_ge_4");
+            }
+            match self.smart(&next.clone(), keys, scan, &chain[1..]) {
+                Ok(x) => {
+                    s.push_str("->");
+                    s.push_str(&x);
+                }
+                Err(()) => s.push_str("->ERR"),
+            }
+        }
+        Ok(s)
+    }
+
     /// Raw bytes (hex) a module query returns.
     fn module_answer(&self, kind: &str, tag: &str) -> String {
         match self.module_cfg_of(kind) {
@@ -895,10 +932,8 @@ impl Model {
         let names = self.names.clone();
         let empty = BTreeMap::new();
         let kv = self.s.kv.get(contract).unwrap_or(&empty);
-        let reads: Vec<String> = node
-            .reads
-            .iter()
-            .map(|r| match r {
+        let read_model = |kv: &BTreeMap<Vec<u8>, Vec<u8>>, r: &ReadOp| -> String {
+            match r {
                 ReadOp::Get(k) => kv.get(&names.key(k)).map(|v| hex(v)).unwrap_or_else(|| "none".into()),
                 ReadOp::Range { start, end, desc } => crate::storage::model_range(kv, start.as_deref(), end.as_deref(), *desc)
                     .iter()
@@ -915,8 +950,22 @@ impl Model {
                     .map(|(_, v)| hex(v))
                     .collect::<Vec<_>>()
                     .join(","),
-            })
-            .collect();
+            }
+        };
+        let reads: Vec<String> = node.reads.iter().map(|r| read_model(kv, r)).collect();
+        // the call's own writes, on a private copy (committed further down unless the call fails)
+        let mut kv_after = kv.clone();
+        for w in &node.writes {
+            match w {
+                WriteOp::Set { k, v } => {
+                    kv_after.insert(names.key(k), v.clone());
+                }
+                WriteOp::Remove { k } => {
+                    kv_after.remove(&names.key(k));
+                }
+            }
+        }
+        let post_reads: Vec<String> = node.post_reads.iter().map(|r| read_model(&kv_after, r)).collect();
         self.trace.push(TraceRec {
             kind: entry.to_string(),
             code_tag: code.tag,
@@ -930,6 +979,7 @@ impl Model {
             reply,
             queries,
             reads,
+            post_reads,
         });
         if depth >= 2 {
             self.probe("call_depth_ge_2");
@@ -961,19 +1011,7 @@ impl Model {
             return Err(());
         }
         // commit the writes
-        {
-            let kv = self.s.kv.entry(contract.to_string()).or_default();
-            for w in &node.writes {
-                match w {
-                    WriteOp::Set { k, v } => {
-                        kv.insert(names.key(k), v.clone());
-                    }
-                    WriteOp::Remove { k } => {
-                        kv.remove(&names.key(k));
-                    }
-                }
-            }
-        }
+        self.s.kv.insert(contract.to_string(), kv_after);
         let mut events = vec![entry_event];
         if !node.attrs.is_empty() {
             let mut attrs = vec![(CONTRACT_ATTR.to_string(), contract.to_string())];
